@@ -135,12 +135,15 @@ TEXT = {
   "technique": "Coq proof (acceptance of every byte string the specification decoder accepts, any property order, all 15 types; refutation witness for D13) + specification-encoder-driven acceptance oracle",
  },
  "C09": {
-  "level": "Theorems C09a_* (each field decoder reports a cut strictly inside the field, for every value and interior position; a frame ending before a "
-           "field gives missing data), C09_error_sticks (an error set anywhere is what UnmarshalBinary returns, for every packet type), C09b_mem/_stream "
-           "(5-byte vbint), C09c_bool, C09d_maps/_unknown (the 229 undefined identifiers). Not one statement over whole frames; the oracle covers every "
-           "interior cut of generated frames by the specification's field map.",
+  "level": "Theorems C09a_whole_frames / C09a_read_packet: for every valid frame (frame_ok: all 15 types, properties in any order) and every cut "
+           "position strictly inside a segment of the reference encoder's field map (body_segs: 2/4-byte integers, strings, property length, "
+           "properties, topic filters; single bytes, raw payload and reason-code list have no interior) UnmarshalBinary on the cut body errs and "
+           "ReadPacket - remaining length equal to the shortened size, any delivery, anything after - returns the error and no packet "
+           "(Proofs/CutP.v: chains of step_ok/cut_ok links per packet type, getany_cut, filter_loop_cut, segs_refine). Per-field: C09a_u16/_u32/"
+           "_string/_vbint/_userprop/_nothing_left, C09_error_sticks, C09b_mem/_stream (5-byte vbint), C09c_bool, C09d_maps/_unknown (229 undefined "
+           "identifiers); (b)-(d) are per-field statements plus stickiness; the oracle covers them over generated frames.",
   "note": NOTE,
-  "technique": "Coq proof (per-field rejection, error stickiness through the decoder IR) + specification-driven must-reject oracle",
+  "technique": "Coq proof (every interior cut of every valid frame rejected, all 15 types; per-field rejection and error stickiness for 5-byte vbint, bad boolean, undefined identifier) + specification-driven must-reject oracle",
  },
  "C13": {
   "level": "Partial. Theorem C13_schedules: on an abstract shared-memory machine, threads whose programs never write a shared location are race-free under "
